@@ -322,7 +322,10 @@ def ob_loose_wrapped_refs(has_state: bool, null_state: bool, si: int, has_rank: 
         doc["state"] = None if null_state else STATUS[si]
     if has_rank:
         doc["rank"] = LEVEL[li]
-    return _rt(doc, Loose)
+    else:
+        doc["marks"] = [STATUS[si], None] if null_state else [STATUS[si], STATUS[li]]  # the wrapper as array items
+    back = U(S(copy.deepcopy(doc), Loose))
+    return _norm(back) == _norm(doc) and back.get("marks", None) in (doc.get("marks"), None, [])
 
 
 def tw_loose_wrapped_refs(has_state: bool, null_state: bool, si: int, has_rank: bool, li: int) -> bool:
